@@ -116,16 +116,16 @@ class Imputer(_SeriesToSeriesTransformer):
             # in-sample forecasting horizon
             fh_ins = -np.arange(len(Z))
             # fill NaN before fitting with ffill and backfill (heuristic)
-            Z = Z.fillna(method="ffill").fillna(method="backfill")
+            Z_aux = Z.fillna(method="ffill").fillna(method="backfill")
             # multivariate
             if isinstance(Z, pd.DataFrame):
                 for col in Z:
-                    forecaster.fit(y=Z[col])
+                    forecaster.fit(y=Z_aux[col])
                     Z_pred = forecaster.predict(fh=fh_ins)
                     Z[col] = Z[col].fillna(value=Z_pred)
             # univariate
             else:
-                forecaster.fit(y=Z)
+                forecaster.fit(y=Z_aux)
                 Z_pred = forecaster.predict(fh=fh_ins)
                 Z = Z.fillna(value=Z_pred)
         elif self.method == "mean":
